@@ -135,8 +135,9 @@ static void gen_with(uint64_t seed, const std::string &prop, Plan &plan, const G
                 plan.ops.push_back(Op{rcv, "recv", {cap}, "", {}, grp});
             }
             if (gp.badsends && !stream && r.chance(0.35)) {
-                static const int64_t bad[] = {0, 65536, 65537, 1 << 20, 100000};
-                plan.ops.push_back(Op{r.chance(0.5) ? ct : st, "badsend", {bad[r.below(5)]}, "", {}});
+                // incl. lengths whose low 32 (or 16) bits look like a legal size: the check must be made on the whole size_t
+                static const int64_t bad[] = {0, 65536, 65537, 1 << 20, 100000, (1LL << 32) + 5, (1LL << 32) + 65535, 3 * (1LL << 40) + 1000, (1LL << 32), (1LL << 16) * 3 + 7, INT64_MAX, -1};
+                plan.ops.push_back(Op{r.chance(0.5) ? ct : st, "badsend", {bad[r.below(12)]}, "", {}});
             }
             if (!gp.noise) continue;
             // noise: calls that the contract allows at any time
@@ -556,8 +557,8 @@ static void run_script(Script &sc) {
         else if (op.kind == "abort") { x_close(x); break; }   // crash point: close at once, nothing finished
         else if (op.kind == "badsend") {
             // C03: sizes the transport must refuse without touching the connection (0: EINVAL, > max: EMSGSIZE)
-            size_t len = (size_t)op.arg(0);
-            std::string m(len, 'z');
+            size_t len = (size_t)op.arg(0);   // (-1 is SIZE_MAX)
+            std::string m(std::min<size_t>(len, 1u << 20), 'z');   // a size the library must refuse before it reads anything; 1 MiB of real buffer behind it
             int rc = x_send(x, m.data(), len);
             int e = errno;
             if (rc >= 0)
@@ -618,6 +619,7 @@ static void setup(const Plan &plan) {
     CX->nconn = (int)plan.P("nconn", 1);
     CX->addr = addr_for(CX->tp, plan.seed);
     XO.check_counters = plan.P("counters") != 0;
+    XO.judge_unprovoked = plan.P("variant") == 0 && !plan.P("relay");
     install_basic_tls_files("/cert");
     K->mkdir_p("/tmp");
     if (plan.P("ctl")) { K->mkdir_p("/ctl"); K->env["XCM_CTL"] = "/ctl"; }
@@ -865,6 +867,8 @@ static Script *script_of_task(int task) {
 static void setup_term(const Plan &plan) {
     setup(plan);
     XO.check_refusal = plan.prop == "C03";
+    // C03's variants inject refusals and interruptions only: none of them can break a connection
+    if (plan.prop == "C03" && !plan.P("relay")) XO.judge_unprovoked = true;
     if (plan.prop == "C03") {
         // exactly-once delivery of every send that returned success is C03's own statement, faults or not
         G->alias["C01.phantom"] = "C03.duplicate_or_phantom";
